@@ -55,6 +55,13 @@ SIEVE_CMDS = [b'CAPABILITY', b'NOOP', b'NOOP "tag"', b'LOGOUT', b'STARTTLS',
               b'UNAUTHENTICATE']
 
 
+TEASERS = [b'z APPEND INBOX {0+}\r\n', b'z LOGIN {0+}\r\n',
+           b'z APPEND INBOX {5+}\r\nab', b'z NOO', b'z LOGIN {3+}\r\nabc',
+           b'z APPEND INBOX {6+}\r\na{3+}\r\n', b'z LOGIN a {0+}\r\n',
+           b'z SELECT {0+}\r\n', b'z APPEND INBOX {3}\r\n', b'\r\n',
+           b'z AUTHENTICATE PLAIN\r\n', b'z IDLE\r\n', b'{0+}\r\n']
+
+
 class Ctx:
     def __init__(self) -> None:
         self.violations: list[dict[str, Any]] = []
@@ -256,8 +263,23 @@ async def case_lines(spec: dict[str, Any], ctx: Ctx) -> None:
         if not ctx.violations:
             await canary(ctx, env)
         if conn is not None and not conn.dead:
+            # half a command (often an open literal), then the peer goes away
+            teaser = rng.choice(TEASERS) if rng.random() < 0.5 else b''
+            if 'teaser' in spec:
+                teaser = spec['teaser'].encode('latin-1')
+            BUDGET.reset()
+            if teaser:
+                conn.feed(teaser)
+                ctx.count('eof_teasers')
             conn.feed_eof()
             await conn.loop.quiescent()     # type: ignore[attr-defined]
+            if isinstance(conn.task_exc, BudgetExceeded):
+                ctx.report('hang', 'step budget exceeded after %r + EOF'
+                           % teaser, conn)
+            elif not conn.task_done:
+                ctx.report('connection-task-survives-eof',
+                           'after %r + EOF the connection task neither '
+                           'ended nor is it runnable' % teaser, conn)
             if conn.task_exc is not None and not isinstance(
                     conn.task_exc, asyncio.CancelledError):
                 judge_close(ctx, conn, 'EOF')
@@ -391,6 +413,14 @@ async def script_lines(spec: dict[str, Any], ctx: Ctx) -> None:
                 break
             raw = line.encode('latin-1') + b'\r\n'
             await send_line(ctx, conn, raw, repr(raw[:200]))
+        if 'teaser' in spec and not conn.dead:
+            BUDGET.reset()
+            conn.feed(spec['teaser'].encode('latin-1'))
+            conn.feed_eof()
+            await conn.loop.quiescent()     # type: ignore[attr-defined]
+            if isinstance(conn.task_exc, BudgetExceeded):
+                ctx.report('hang', 'step budget exceeded after %r + EOF'
+                           % spec['teaser'], conn)
         if not ctx.violations:
             await canary(ctx, env)
     finally:
